@@ -6,6 +6,7 @@ import (
 	"os"
 	"path/filepath"
 	"regexp"
+	"strings"
 
 	"google.golang.org/protobuf/proto"
 
@@ -28,7 +29,7 @@ func runModel(h *hx.H, prop string) {
 		maxDev = 3
 	}
 	if prop == "C01" {
-		h.Rule = fmt.Sprintf("inputs: every workspace obtained from the three-file base (main.proto in proto2 / proto3 / edition 2023) by <=%d deviations from a catalogue of about 280 (labels, types, numbers, names, options, oneof placement, type spellings, maps, groups, reserved and extension ranges, enum values, extensions, service, imports, package), printed and compiled by the real compiler; oracle: the three-valued reference model of protoc's acceptance rules (DESIGN Appendix A/B): alarm iff the model accepts and the compiler rejects or the model rejects and the compiler accepts; UNKNOWN never alarms; non-trivial = workspace the model rejects", maxDev)
+		h.Rule = fmt.Sprintf("inputs: every workspace obtained from the three-file base (main.proto in proto2 / proto3 / edition 2023) by <=%d deviations from a catalogue of %d/%d/%d (proto2/proto3/2023: labels, types, numbers, names, options, oneof placement, type spellings, maps, groups, reserved and extension ranges, extension declarations, enum values, extensions, service, imports and their modifiers, package, editions features), printed and compiled by the real compiler; oracle: the three-valued reference model of protoc's acceptance rules (DESIGN Appendix A/B): alarm iff the model accepts and the compiler rejects or the model rejects and the compiler accepts; UNKNOWN never alarms; non-trivial = workspace the model rejects", maxDev, len(model.Catalogue("proto2")), len(model.Catalogue("proto3")), len(model.Catalogue("2023")))
 	} else {
 		h.Rule = fmt.Sprintf("inputs: the workspaces of C01 (<=%d deviations) that the reference model accepts; oracle: the FileDescriptorProtos produced by the real compiler (source info off) equal the ones the reference model builds (names, numbers, labels, types, resolved type names, json_name, defaults, oneof indices incl. synthetic oneofs, map entries, groups, ranges, options, dependency lists); non-trivial = accepted workspace with >=1 deviation; plus, as a protoc-backed anchor, every file of the nine protoc-produced descriptor sets under internal/testdata whose source is present is compiled and compared with protoc's recorded descriptor", maxDev)
 	}
@@ -131,6 +132,13 @@ func checkModel(h *hx.H, prop string, idx int64, ws *model.WS, ndev int) {
 	if res.err != nil {
 		got = model.Reject
 	}
+	// a recovered panic is not a verdict
+	if res.err != nil && strings.Contains(res.err.Error(), "panic handling") {
+		if prop == "C01" {
+			fail("compiler-panics:"+errClass(res.err.Error()), "the compile ends with a recovered panic: %v", res.err)
+		}
+		return
+	}
 	h.Outcome(fmt.Sprintf("model=%s compiler=%s", want.Verdict, got))
 	if want.Verdict == model.Unknown {
 		h.Count("model_unknown", 1)
@@ -150,7 +158,7 @@ func checkModel(h *hx.H, prop string, idx int64, ws *model.WS, ndev int) {
 		if want.Verdict == model.Reject {
 			fail("accepts-invalid:"+want.Rule, "the reference model rejects (%s) but the compiler accepts", want.Reason)
 		} else {
-			fail("rejects-valid:"+errClass(first(res.errs)), "the reference model accepts but the compiler rejects: %s", first(res.errs))
+			fail("rejects-valid:"+errClass(first1(res.errs, res.err)), "the reference model accepts but the compiler rejects: %s", first1(res.errs, res.err))
 		}
 		return
 	}
